@@ -148,13 +148,12 @@ def curve_objs(name):
 def aff(R):
     if R is E.INFINITY or R == E.INFINITY:
         return None
-    p = int(R.curve().p())
     if isinstance(R, E.PointJacobi):
         a = R.to_affine()
         if a is E.INFINITY:
             return None
-        return (int(a.x()) % p, int(a.y()) % p)
-    return (int(R.x()) % p, int(R.y()) % p)
+        return (int(a.x()), int(a.y()))       # as returned: results are field elements in [0, p)
+    return (int(R.x()), int(R.y()))
 
 
 # operations: name -> (fn(shared objects) -> observable result, expected(reference) )
